@@ -131,3 +131,89 @@ Proof.
         cbn [map concat]. destruct (select (map (Z.eqb c) ch) r) as [|x sel]; [cbn [length] in Lr; lia|]. reflexivity.
 Qed.
 End Built.
+
+(* ---------- predict_viability_avg and retrospective.calculate_mse ---------- *)
+Lemma list_get_at {A} (pre : list A) a suf : list_get (pre ++ a :: suf) (Z.of_nat (length pre)) = Ok a.
+Proof.
+  unfold list_get. destruct (Z.ltb_spec (Z.of_nat (length pre)) 0) as [|_]; [lia|].
+  destruct (Z.ltb_spec (Z.of_nat (length pre)) 0) as [|_]; [lia|].
+  rewrite Nat2Z.id, nth_error_app2, Nat.sub_diag by lia. reflexivity.
+Qed.
+
+(* `for i in range(len(l)): x = l[i]; ...` is `for x in l: ...` *)
+Lemma res_fold_zrange_get {St A} (l : list A) (F : St -> Z -> result St) (f : St -> A -> result St) :
+  (forall s i, F s i = dor a <- list_get l i; f s a) ->
+  forall s, res_fold F (zrange (Z.of_nat (length l))) s = res_fold f l s.
+Proof.
+  intros HF. unfold zrange. rewrite Nat2Z.id.
+  assert (G : forall suf pre s, l = pre ++ suf ->
+              res_fold F (map Z.of_nat (seq (length pre) (length suf))) s = res_fold f suf s).
+  { induction suf as [|a suf IH]; intros pre s E; [reflexivity|]. cbn [length seq map res_fold].
+    rewrite HF, E, list_get_at. cbn [res_bind]. destruct (f s a) as [s'|e]; cbn [res_bind]; [|reflexivity].
+    replace (S (length pre)) with (length (pre ++ [a])) by (rewrite app_length; cbn [length]; lia).
+    apply IH. now rewrite <- app_assoc. }
+  intros s. apply (G l [] s). reflexivity.
+Qed.
+
+Lemma no_nan x : np_any1 (np_isnan1 x) = false.
+Proof. unfold np_any1, np_isnan1. induction x as [|a x IH]; [reflexivity | exact IH]. Qed.
+
+Lemma vadd_length a b : length a = length b -> length (vadd a b) = length a.
+Proof. intros H. unfold vadd. rewrite map_length, combine_length, H. apply Nat.min_id. Qed.
+
+Lemma sum_loop (f : list Qc -> list Qc -> result (list Qc)) n :
+  (forall acc row, f acc row = np_add1 acc row) ->
+  forall pt acc, length acc = n ->
+  res_fold f pt acc = if forallb (fun r => Nat.eqb (length r) n) pt then Ok (fold_left vadd pt acc) else Err E_VALUE.
+Proof.
+  intros Hf pt. induction pt as [|row pt IH]; intros acc L; cbn [res_fold forallb fold_left]; [reflexivity|].
+  rewrite Hf. unfold np_add1. rewrite L, (Nat.eqb_sym n (length row)).
+  destruct (Nat.eqb_spec (length row) n) as [E|]; cbn [andb res_bind]; [|reflexivity].
+  apply IH. rewrite vadd_length; congruence.
+Qed.
+
+Lemma fold_vadd_length n : forall pt acc, length acc = n -> forallb (fun r : list Qc => Nat.eqb (length r) n) pt = true ->
+  length (fold_left vadd pt acc) = n.
+Proof.
+  induction pt as [|row pt IH]; intros acc L H; cbn [fold_left forallb] in *; [exact L|].
+  apply andb_prop in H as [H1 H2]. apply Nat.eqb_eq in H1. apply IH; [|exact H2]. rewrite vadd_length; congruence.
+Qed.
+
+Lemma zeros_all_zero n : forallb (qeqb 0%Qc) (repeat 0%Qc n) = true.
+Proof. induction n as [|n IH]; [reflexivity|]. cbn [repeat forallb]. rewrite IH. unfold qeqb. destruct (Qc_eq_dec 0 0); [reflexivity | congruence]. Qed.
+
+(* predict_viability_avg: the sum of the thetas' predictions over their number (the model's predict_avg), ValueError when a
+   prediction has another length than the screen, NaN when there is no theta and the screen is not empty *)
+Theorem src_predict_viability_avg_is_model : forall (size : nat) (pt : list (list Qc)),
+  src_predict_viability_avg size pt
+  = if negb (forallb (fun r => Nat.eqb (length r) size) pt) then Err E_VALUE
+    else match pt, size with
+         | [], O => Ok []
+         | [], _ => Err E_NAN
+         | _, _ => Ok (predict_avg size pt)
+         end.
+Proof.
+  intros size pt. unfold src_predict_viability_avg.
+  rewrite (res_fold_zrange_get pt _ (fun acc row => np_add1 acc row)).
+  2:{ intros s i. destruct (list_get pt i) as [row|e]; cbn [res_bind]; [|reflexivity]. rewrite no_nan. apply evm_bind_ok_r. }
+  unfold np_zeros1. rewrite Nat2Z.id. rewrite (sum_loop _ size) by (reflexivity || apply repeat_length).
+  destruct (forallb _ pt) eqn:All; cbn [negb res_bind]; [|reflexivity].
+  rewrite evm_bind_ok_r. unfold np_div_int. destruct pt as [|row pt].
+  - cbn [length fold_left Z.of_nat Z.eqb]. rewrite zeros_all_zero. destruct size; reflexivity.
+  - destruct (Z.eqb_spec (Z.of_nat (length (row :: pt))) 0) as [E|_]; [cbn [length] in E; lia|]. reflexivity.
+Qed.
+
+Theorem src_calculate_mse_is_model : forall (pt : list (list Qc)) (obs : list Qc),
+  src_calculate_mse pt obs = Metrics.calculate_mse pt obs.
+Proof.
+  intros pt obs. unfold src_calculate_mse, Metrics.calculate_mse. rewrite src_predict_viability_avg_is_model.
+  destruct (forallb _ pt) eqn:All; cbn [negb res_bind]; [|reflexivity].
+  destruct pt as [|row pt].
+  - destruct obs as [|x obs]; reflexivity.
+  - cbn [res_bind]. unfold np_sub1.
+    assert (L : length (predict_avg (length obs) (row :: pt)) = length obs).
+    { unfold predict_avg. rewrite map_length. apply fold_vadd_length; [apply repeat_length | exact All]. }
+    rewrite L, Nat.eqb_refl. cbn [res_bind]. rewrite evm_bind_ok_r. unfold np_square1. rewrite map_map.
+    destruct obs as [|x obs]; [cbn [length] in L |- *; apply length_zero_iff_nil in L; rewrite L; reflexivity|].
+    destruct (predict_avg (length (x :: obs)) (row :: pt)) as [|p ps]; [discriminate|]. reflexivity.
+Qed.
